@@ -106,6 +106,13 @@ def run(ctx):
         for key, p in sorted(seen.items()):
             n_ok += 1
             pl = p.ret_payload
+            # `match self.insert_internal(..) { Ok(v) => Ok(v), Err(e) => .. }`: the payload handed on is insert_internal's own Ok payload,
+            # which is judged in insert_internal's turn
+            inner_ = pl[1] if pl and pl[0] == "term" and len(pl) == 2 else pl
+            if f is ins and inner_ and inner_[0] == "field" and inner_[2] == "0" and inner_[1][0] == "variant" and inner_[1][2] == "Ok" \
+                    and inner_[1][1][0] == "call" and inner_[1][1][1] == ii.key:
+                ctx.ok("R14-ok-true", "%s:Ok(forwarded)" % f.key, "insert hands on the Ok payload of insert_internal unchanged", nontrivial=False)
+                continue
             # locate the Ok aggregate for the report
             where = p.fn.blocks[p.blocks[-1]].term.span
             for b in reversed(p.blocks):
